@@ -54,8 +54,11 @@ class runtime_error(FeedbackResponse):
             exception_message = str(exception)
             if not isinstance(exception_message, str):
                 raise TypeError("__str__ returned non-string")
-        except Exception:
-            # A student-defined exception may have a broken __str__
+        except KeyboardInterrupt:
+            raise
+        except BaseException:
+            # A student-defined exception may have a broken __str__ - one that
+            # raises anything, or ends the program with sys.exit()
             exception_message = "<the exception's message could not be shown>"
         exception_message = exception_message[0].upper() + exception_message[1:] if exception_message else ""
         if type(exception) not in EXCEPTION_FF_MAP:
